@@ -459,6 +459,10 @@ def check_spread(rep, wf, cls):
     if cls == 'Generator_spa':
         cands = by_role.get(frozenset(['n2', 'n3']), [])
         lists = [c for c in cands if c[1][0] in ('comp', 'cat', 'accum')]
+        if len(lists) != 1 and cands:
+            # something derived from (n2, n3) does reach the writer, in a form the block recogniser does not read
+            rep.inconclusive('C08.R4', w, 'projects per lecturer follow a recognised block assignment', got=[show(c[1])[:100] for c in cands][:2])
+            return
         if len(lists) != 1:
             rep.fail('C08.R4', w, 'projects are assigned to lecturers and passed to the writer', got='%d candidates' % len(lists), construct='project-lecturer table missing')
             return
